@@ -20,12 +20,13 @@ Line protocol for C02 (stream energy balance; `Float` instance of the model).
   <f>     = a float as `b<ieee bits>` (decimals accepted)
 
 Answer (a `mix` line additionally ends with ` vs=<H:<f>:<P> | T:<f>:<P> | ->`, the flash specification):
-  out=<ok|raised> tag=<branch> ph=<ph> T=<f> P=<f> e=<0|1> H=<f> calls=<n> q=<ph,…|-> hyp=<ok|resid@i|slope@i|missing@i>
+  out=<ok|raised> tag=<branch> ph=<ph> T=<f> P=<f> e=<0|1> H=<f> calls=<n> q=<ph,…|-> hyp=<ok|range@i|resid@i|slope@i|missing@i>
 
 `H` is what the property says the receiver's enthalpy (entropy) is: the assigned value, the
 single inlet's `H` when nothing had to be assigned, 0 for an emptied receiver.  `q` are the phase
 states the model asked the solver for, `hyp` the hypothesis monitor over the calls the model used:
-`|resid| ≤ rtol·|target| + 1e-5 K · slope` (rtol 1e-6 for H, h, Sg = entropy of a gas; 2e-5 for S) and `slope > 0`.
+the returned T lies in the physical domain [150, 1500] K (`range`; the adapter prints the same test, it is the
+precondition under which the slope allowance means anything), `|resid| ≤ rtol·|target| + 1e-5 K · slope` (rtol 1e-6 for H, h, Sg = entropy of a gas; 2e-5 for S) and `slope > 0`.
 -/
 namespace Driver.C02
 open ThermoVerif.EnergyBalance Driver
@@ -119,8 +120,9 @@ def monitor (calls : List Call) (n : Nat) (target : Float) (rtol : Float) : Stri
     | c :: t =>
       match c.T with
       | none => go (i + 1) t
-      | some _ =>
-        if !(c.slope > 0.0) then s!"slope@{i}"
+      | some T =>
+        if !(T ≥ 150.0 && T ≤ 1500.0) then s!"range@{i}"
+        else if !(c.slope > 0.0) then s!"slope@{i}"
         else if !(absF c.resid ≤ rtol * absF target + 1e-5 * c.slope) then s!"resid@{i}"
         else go (i + 1) t
   go 0 calls
